@@ -13,6 +13,7 @@ import (
 	"google.golang.org/protobuf/proto"
 	"net/http"
 	"strconv"
+	"strings"
 	"time"
 )
 
@@ -48,6 +49,10 @@ func (t *TempoController) Trace(w http.ResponseWriter, r *http.Request) {
 	end, err := strconv.ParseInt(strEnd, 10, 64)
 	if err != nil {
 		end = 0
+	}
+	if len(traceId) < 32 {
+		// an id may come without its leading zeros; the writer pads trace_id the same way
+		traceId = strings.Repeat("0", 32-len(traceId)) + traceId
 	}
 	bTraceId := make([]byte, 32)
 	_, err = hex.Decode(bTraceId, []byte(traceId))
